@@ -1,4 +1,5 @@
 import ActixModel.Proofs.QuoterSpec
+import ActixModel.Proofs.PatternDef
 /-
 C10 — path patterns match exactly their language; partial percent-decoding decodes every
 non-protected valid escape and nothing else.
@@ -182,5 +183,280 @@ theorem C10_requote_roundtrip (prot : Bytes) (bs : Bytes) :
       simp only [encodeAll] at hesc ⊢
       rw [decodeSpec, hesc]
       simp
+
+
+/-! # Part 2: path patterns (`actix-router/src/resource.rs`), model `Model/Pattern.lean`
+
+Spec: `Spec/C10.lean` — `LangRe`, `LangSegs`, `SuffixOk`, `LangDyn`, `Matches` (inductive language
+of a pattern, no priorities), `Substr`, `SpansOk`.  `fresh path` is `Path::new(path)`.
+All theorems quantify over every `ResourceDef` value of the model (static, dynamic with any
+regex of the fragment, pattern lists of any length), every path (any Unicode string, any
+length unless a bound is stated).  -/
+
+open ActixModel.Pattern
+
+/-- **C10_three_agree**: for every resource definition and every path, `is_match`,
+`find_match` and `capture_match_info` (on a fresh `Path`) agree on *whether* the path matches,
+`capture_match_info` never panics, and the matched length stored in the path is the one
+`find_match` reports (as a `u16`). -/
+theorem C10_three_agree (rd : ResourceDef) (path : List Char) :
+    rd.isMatch path = (rd.findMatch path).isSome ∧
+    (rd.captureMatchInfo (fresh path) = .noMatch ↔ rd.isMatch path = false) ∧
+    (∀ n, rd.findMatch path = some n →
+      ∃ segs, rd.captureMatchInfo (fresh path) =
+        .matched { path := path, skip := asU16 n, segments := segs }) := by
+  unfold ResourceDef.isMatch ResourceDef.findMatch ResourceDef.captureMatchInfo
+  cases hpt : rd.patType with
+  | «static» p =>
+    simp only [fresh_unprocessed]
+    cases hs : staticMatch rd.isPrefix p path with
+    | none => simp
+    | some len =>
+      refine ⟨by simp, by simp [commit_fresh], ?_⟩
+      intro n hn
+      injection hn with hn
+      subst hn
+      exact ⟨[], commit_fresh path len [] (by simp)⟩
+  | dynamic d =>
+    simp only
+    refine ⟨dyn_agree d path, ?_, ?_⟩
+    · cases hc : d.captures path with
+      | none =>
+        rw [captureDyn_fresh_none hc]
+        have := captures_isSome d path
+        rw [hc] at this
+        simp [← this]
+      | some r =>
+        obtain ⟨n, caps⟩ := r
+        obtain ⟨vars, _, hm⟩ := captureDyn_fresh_some hc
+        rw [hm]
+        have := captures_isSome d path
+        rw [hc] at this
+        simp [← this]
+    · intro n hn
+      cases hc : d.captures path with
+      | none => rw [hc] at hn; cases hn
+      | some r =>
+        obtain ⟨n', caps⟩ := r
+        rw [hc] at hn
+        simp only [Option.map_some, Option.some.injEq] at hn
+        subst hn
+        obtain ⟨vars, _, hm⟩ := captureDyn_fresh_some hc
+        exact ⟨vars, hm⟩
+  | dynamicSet ds =>
+    simp only [fresh_unprocessed]
+    cases hf : firstMatchIdx ds path with
+    | none =>
+      have := firstMatchIdx_none.mp hf
+      simp [this]
+    | some i =>
+      obtain ⟨d, hget, hm, _⟩ := firstMatchIdx_some hf
+      have hany : ds.any (·.isMatchRe path) = true :=
+        List.any_eq_true.mpr ⟨d, List.mem_of_getElem? hget, hm⟩
+      simp only [hget, hany]
+      have hsome : (d.captures path).isSome = true := by rw [captures_isSome]; exact hm
+      cases hc : d.captures path with
+      | none => rw [hc] at hsome; cases hsome
+      | some r =>
+        obtain ⟨n, caps⟩ := r
+        obtain ⟨vars, _, hcm⟩ := captureDyn_fresh_some hc
+        refine ⟨by simp, by simp [hcm], ?_⟩
+        intro n' hn'
+        simp only [Option.map_some, Option.some.injEq] at hn'
+        subst hn'
+        exact ⟨vars, hcm⟩
+
+example : ∃ rd, parsePattern false (.single ['/', 'u', '/', '{', 'i', 'd', '}']) = .ok rd ∧
+    rd.isMatch ['/', 'u', '/', '7'] = true ∧ rd.findMatch ['/', 'u', '/', '7'] = some 4 := by
+  refine ⟨_, rfl, ?_, ?_⟩ <;> decide
+
+/-- **C10_sound**: whenever `capture_match_info` succeeds on a path shorter than 64 KiB, the
+path is in the pattern's language (`Matches`: static text / segment languages / boundary suffix /
+first matching pattern of a list), the stored matched length is the byte length of the matched
+prefix, and the stored segments are, in order and under the right names, the byte spans of the
+values — **C10_captures_exact** (1): every captured value is the substring at its offsets. -/
+theorem C10_sound (rd : ResourceDef) (hwf : DefWF rd) (path : List Char) (hlen : blen path < 65536)
+    (st : PathState) (h : rd.captureMatchInfo (fresh path) = .matched st) :
+    ∃ vals, Matches rd path st.skip vals ∧ st.path = path ∧ SpansOk path st.skip st.segments vals := by
+  unfold ResourceDef.captureMatchInfo at h
+  unfold Matches
+  unfold DefWF at hwf
+  cases hpt : rd.patType with
+  | «static» p =>
+    rw [hpt] at h
+    simp only [fresh_unprocessed] at h
+    cases hs : staticMatch rd.isPrefix p path with
+    | none => rw [hs] at h; cases h
+    | some len =>
+      rw [hs] at h
+      simp only at h
+      rw [commit_fresh path len [] (by simp)] at h
+      injection h with h
+      subst h
+      obtain ⟨rest, hp, hn, hb⟩ := (static_iff _ _ _ _).mp hs
+      have : asU16 len = len := asU16_of_lt (by
+        have := blen_le_of_append hp; omega)
+      exact ⟨[], ⟨rest, hp, by rw [this]; exact hn, rfl, hb⟩, rfl, by simp [SpansOk]⟩
+  | dynamic d =>
+    rw [hpt] at h hwf
+    exact captureDyn_sound hwf hlen h
+  | dynamicSet ds =>
+    rw [hpt] at h hwf
+    simp only [fresh_unprocessed] at h
+    cases hf : firstMatchIdx ds path with
+    | none => rw [hf] at h; cases h
+    | some i =>
+      rw [hf] at h
+      obtain ⟨d, hget, hm, hfirst⟩ := firstMatchIdx_some hf
+      simp only [hget] at h
+      obtain ⟨vals, hl, hp, hs⟩ := captureDyn_sound (hwf d (List.mem_of_getElem? hget)) hlen h
+      refine ⟨vals, ⟨i, d, hget, hl, ?_⟩, hp, hs⟩
+      intro j d' hj hget' hex
+      have := hfirst j d' hj hget'
+      rw [(isMatchRe_iff d' path).mpr hex] at this
+      cases this
+
+/-- **C10_complete**: every path in the pattern's language is matched (by all three ways, by
+`C10_three_agree`). -/
+theorem C10_complete (rd : ResourceDef) (path : List Char) (n : Nat) (vals : List (Name × List Char))
+    (h : Matches rd path n vals) : rd.isMatch path = true := by
+  unfold Matches at h
+  unfold ResourceDef.isMatch
+  cases hpt : rd.patType with
+  | «static» p =>
+    rw [hpt] at h
+    obtain ⟨rest, hp, hn, _, hb⟩ := h
+    have := (static_iff rd.isPrefix p path n).mpr ⟨rest, hp, hn, hb⟩
+    simp [this]
+  | dynamic d =>
+    rw [hpt] at h
+    exact (isMatchRe_iff d path).mpr ⟨n, vals, h⟩
+  | dynamicSet ds =>
+    rw [hpt] at h
+    obtain ⟨i, d, hget, hl, _⟩ := h
+    exact List.any_eq_true.mpr ⟨d, List.mem_of_getElem? hget, (isMatchRe_iff d path).mpr ⟨n, vals, hl⟩⟩
+
+/-- the language of the default segment `[^/]+` is "a non-empty run without `/`" -/
+theorem C10_default_segment (w : List Char) : LangRe defaultRe w ↔ (w ≠ [] ∧ '/' ∉ w) := by
+  constructor
+  · intro h
+    cases h with
+    | cons hr hl =>
+      have := langRe_nil hl
+      subst this
+      obtain ⟨hall, hmin, _⟩ := hr
+      rename_i w'
+      simp only [List.append_nil]
+      refine ⟨by intro e; subst e; simp at hmin, ?_⟩
+      intro hmem
+      have := hall '/' hmem
+      simp [Atom.matches, inRanges] at this
+  · rintro ⟨hne, hno⟩
+    have : LangRe defaultRe (w ++ []) := by
+      refine .cons ⟨?_, ?_, by simp⟩ .nil
+      · intro c hc
+        have hc' : c ≠ '/' := by intro e; subst e; exact hno hc
+        simp only [Atom.matches, inRanges, Bool.or_false, bne_iff_ne, ne_eq, Bool.true_eq,
+          Bool.and_eq_true, decide_eq_true_eq, not_and]
+        intro h1 h2
+        exact hc' (Char.le_antisymm h2 h1)
+      · cases w with
+        | nil => exact absurd rfl hne
+        | cons _ _ => simp
+    simpa using this
+
+/-- the language of a tail segment `.*` is every string (including `/` and newlines) -/
+theorem C10_tail_segment (w : List Char) : LangRe tailRe w := by
+  have : LangRe tailRe (w ++ []) := .cons ⟨by intro c _; rfl, by simp, by simp⟩ .nil
+  simpa using this
+
+/-- **C10_captures_exact** (2): `Path::get` returns exactly the matched substrings (never a
+slicing panic), and the static texts concatenated with the values are the matched prefix. -/
+theorem C10_captures_exact (d : DynPat) (isPrefix : Bool) (hwf : DynWF d) (path : List Char)
+    (hlen : blen path < 65536) (st : PathState)
+    (h : (ResourceDef.mk isPrefix (.dynamic d) d.segs).captureMatchInfo (fresh path) = .matched st) :
+    ∃ (vals : List (Name × List Char)) (m rest : List Char), path = m ++ rest ∧ blen m = st.skip ∧
+      st.values = vals.map (fun v => (v.1, some v.2)) ∧
+      buildSegs d.segs (vals.map (·.2)) = (m, true) := by
+  obtain ⟨vals, hm, hp, hs⟩ := C10_sound (ResourceDef.mk isPrefix (.dynamic d) d.segs) hwf path hlen st h
+  obtain ⟨m, rest, hpath, hl, _, hn⟩ := hm
+  refine ⟨vals, m, rest, hpath, hn.symm, ?_, by simpa using buildSegs_lang hl []⟩
+  unfold PathState.values
+  rw [hp]
+  exact spansOk_values hs
+
+/-- **C10_build_concat**: a path built from values that lie in their segments' languages is in
+the pattern's language — and therefore matches (`C10_complete`). -/
+theorem C10_build_match (d : DynPat) (isPrefix : Bool) (m : List Char) (vals : List (Name × List Char))
+    (hl : LangSegs d.segs m vals) :
+    (ResourceDef.mk isPrefix (.dynamic d) d.segs).build (vals.map (·.2)) = (m, true) ∧
+    (ResourceDef.mk isPrefix (.dynamic d) d.segs).isMatch m = true := by
+  refine ⟨by simpa [ResourceDef.build] using buildSegs_lang hl [], ?_⟩
+  apply C10_complete _ m (blen m) vals
+  refine ⟨m, [], by simp, hl, ?_, rfl⟩
+  cases d.suffix <;> simp [SuffixOk]
+
+/-
+FULL STATEMENT (false of the code, see `witness_build_ambiguous`):
+  theorem C10_build_values (d isPrefix m vals) (hl : LangSegs d.segs m vals) (hwf) (hlen) :
+      ∃ st, capture (fresh m) = .matched st ∧ st.values = vals.map (fun v => (v.1, some v.2))
+i.e. "a path built from a pattern and values … yields those values back".
+-/
+
+/-- **C10_build_values_partial**: building then capturing gives the values back *when the built
+path has only one decomposition into the pattern's segments* (extra hypothesis `huniq`).  Without
+it, the captured values still re-build the very same path when the pattern is a full
+(non-prefix, non-tail) one — second conjunct. -/
+theorem C10_build_values_partial (d : DynPat) (isPrefix : Bool) (hwf : DynWF d) (m : List Char)
+    (vals : List (Name × List Char)) (hl : LangSegs d.segs m vals) (hlen : blen m < 65536) :
+    ∃ st vals', (ResourceDef.mk isPrefix (.dynamic d) d.segs).captureMatchInfo (fresh m) = .matched st ∧
+      st.values = vals'.map (fun v => (v.1, some v.2)) ∧
+      ((∀ n' v', LangDyn d m n' v' → v' = vals) → vals' = vals) ∧
+      (d.suffix = .eos → buildSegs d.segs (vals'.map (·.2)) = (m, true)) := by
+  have hmatch := (C10_build_match d isPrefix m vals hl).2
+  have h3 := C10_three_agree (ResourceDef.mk isPrefix (.dynamic d) d.segs) m
+  cases hf : (ResourceDef.mk isPrefix (.dynamic d) d.segs).findMatch m with
+  | none => rw [h3.1, hf] at hmatch; cases hmatch
+  | some n =>
+    obtain ⟨segs, hcap⟩ := h3.2.2 n hf
+    obtain ⟨vals', hm, hp, hs⟩ := C10_sound (ResourceDef.mk isPrefix (.dynamic d) d.segs) hwf m hlen _ hcap
+    refine ⟨_, vals', hcap, ?_, ?_, ?_⟩
+    · unfold PathState.values
+      exact spansOk_values hs
+    · intro huniq
+      exact huniq _ vals' hm
+    · intro heos
+      obtain ⟨m', rest, hpath, hl', hsfx, _⟩ := hm
+      rw [heos] at hsfx
+      simp only [SuffixOk] at hsfx
+      subst hsfx
+      simp only [List.append_nil] at hpath
+      subst hpath
+      simpa using buildSegs_lang hl' []
+
+/-- the pattern `/{a}{b}` as `parse` produces it -/
+def ambiguousPat : DynPat :=
+  ⟨[.const ['/'], .var ['a'] defaultRe, .const [], .var ['b'] defaultRe], .eos⟩
+
+example : parsePattern false (.single ['/', '{', 'a', '}', '{', 'b', '}']) =
+    .ok ⟨false, .dynamic ambiguousPat, ambiguousPat.segs⟩ := by rfl
+
+/-- **witness_build_ambiguous**: the full statement fails: `/{a}{b}` built from `("x1","y2")` is
+`/x1y2`; both values are non-empty runs without `/`, but the capture returns `("x1y","2")`. -/
+theorem witness_build_ambiguous :
+    LangSegs ambiguousPat.segs ['/', 'x', '1', 'y', '2'] [(['a'], ['x', '1']), (['b'], ['y', '2'])] ∧
+    ∃ st, (ResourceDef.mk false (.dynamic ambiguousPat) ambiguousPat.segs).captureMatchInfo
+        (fresh ['/', 'x', '1', 'y', '2']) = .matched st ∧
+      st.values = [(['a'], some ['x', '1', 'y']), (['b'], some ['2'])] := by
+  refine ⟨?_, _, rfl, by decide⟩
+  have h1 : LangRe defaultRe ['x', '1'] := (C10_default_segment _).mpr (by decide)
+  have h2 : LangRe defaultRe ['y', '2'] := (C10_default_segment _).mpr (by decide)
+  exact .const (cs := ['/']) (.var h1 (.const (cs := []) (.var h2 .nil)))
+
+/-- **witness_u16_truncation**: beyond 64 KiB the `as u16` casts do truncate: a group that the
+regex reports at bytes 1..65537 is stored as 1..1 (the hypothesis `blen path < 65536` of
+`C10_sound` cannot be dropped; the corpus replays it on the real code). -/
+theorem witness_u16_truncation :
+    collectSegments [(['a'], 1, 65537)] [['a']] = some [(['a'], 1, 1)] := by decide
 
 end ActixModel.C10
